@@ -411,7 +411,9 @@ fn history_search(c: &Value, property: &str, tier: &str, seed: u64, n_subjects: 
         let in_batch = at["canons"][which].clone();
         let alone_sc = json!({"sim": "hashsim", "boot_seed": boot, "subject": plan.subjects[idx].to_json(), "key_seed": hashsim::key_seed(seed, idx, kk), "prefix": hashsim::prefix_for(&plan, seed, idx, kk)});
         let alone = proc::call(&["single", "hashsim"], &alone_sc)?;
-        if alone["canon"] == in_batch {
+        // (in-batch outcomes are reported cut to 400 characters)
+        let cut = |v: &Value| v.as_str().map(|s| s.chars().take(400).collect::<String>());
+        if cut(&alone["canon"]) == cut(&in_batch) {
             continue;
         }
         let _ = (n_subjects, k);
@@ -563,7 +565,9 @@ pub fn check_hashsim(property: &str, tier: &str) -> i32 {
             match out {
                 Ok(o) => {
                     runs += 1;
-                    if o["canon"].as_str() != Some(rec.2.as_str()) {
+                    // (workers report the first 400 characters of a canonical outcome and the digest
+                    // of the whole: the comparison is by digest)
+                    if format!("{:016x}", crate::prng::digest(o["canon"].as_str().unwrap_or(""))) != rec.1 {
                         let mut warm = cold.clone();
                         warm["cold"] = json!(false);
                         candidates.push(json!({
@@ -639,11 +643,25 @@ pub fn check_hashsim(property: &str, tier: &str) -> i32 {
                 let mut warm = c["runs"][1].clone();
                 warm["cold"] = json!(false);
                 hc["runs"] = json!([warm]);
-                if let Ok(Some(mut h)) = history_search(&hc, property, tier, seed, n_subjects as usize, k as usize) {
+                let found = history_search(&hc, property, tier, seed, n_subjects as usize, k as usize);
+                if std::env::var_os("VERIF_DEBUG").is_some() {
+                    eprintln!("[debug] cold difference on {}: history search -> {:?}", c["subject_id"], found.as_ref().map(|o| o.as_ref().map(|h| h["detail"].clone())));
+                }
+                if let Ok(Some(mut h)) = found {
                     h["sim"] = json!("hashsim");
-                    if let Ok(true) = confirm_hashsim(&h) {
-                        confirmed.push(h);
+                    let ok = confirm_hashsim(&h);
+                    if std::env::var_os("VERIF_DEBUG").is_some() {
+                        eprintln!("[debug]   confirmation -> {ok:?}");
                     }
+                    if let Ok(true) = ok {
+                        confirmed.push(h);
+                    } else {
+                        harness_errors.push(json!({"what": "a cold-process difference was reduced to a history that does not reproduce", "subject": c["subject_id"]}));
+                    }
+                } else {
+                    // never silently: an outcome that differs between a worker and a cold process
+                    // and that neither hash keys nor the worker's history explain is no verdict
+                    harness_errors.push(json!({"what": "cold-process difference that the worker's history does not explain", "subject": c["subject_id"], "detail": c["detail"]}));
                 }
             }
             Ok(false) => {
